@@ -71,8 +71,8 @@ type Failure struct {
 
 type Prop struct {
 	ID     string
-	Module string                          // Coq module with [case] and [check_case]
-	Run    func(c *Ctx)                    // generate and execute cases for c.Tier
+	Module string                                  // Coq module with [case] and [check_case]
+	Run    func(c *Ctx)                            // generate and execute cases for c.Tier
 	Replay func(c *Ctx, raw json.RawMessage) error // execute one recorded case
 }
 
@@ -182,7 +182,7 @@ func (c *Ctx) flush() {
 	c.shard = c.shard[:0]
 }
 
-func (c *Ctx) Count(stat string)        { c.Stats[stat]++ }
+func (c *Ctx) Count(stat string)         { c.Stats[stat]++ }
 func (c *Ctx) CountN(stat string, n int) { c.Stats[stat] += n }
 
 // Nontrivial marks the current case as non-trivial by the property's rule.
@@ -303,8 +303,8 @@ func ZListList(ss [][]int) string {
 	return "[" + strings.Join(parts, ";") + "]"
 }
 func List(parts []string) string { return "[" + strings.Join(parts, ";") + "]" }
-func Pair(a, b string) string   { return "(" + a + "," + b + ")" }
-func Some(a string) string      { return "(Some " + a + ")" }
+func Pair(a, b string) string    { return "(" + a + "," + b + ")" }
+func Some(a string) string       { return "(Some " + a + ")" }
 func Opt(ok bool, a string) string {
 	if ok {
 		return Some(a)
